@@ -4,7 +4,7 @@ import iongen
 import binlib
 import cursor
 
-THEOREMS = []
+THEOREMS = ["C06bin_never_panics_default", "C06bin_every_call_returns_default", "C06bin_next_terminates", "C06bin_traverse_memory_default", "C06bin_memory_follows_input", "C06bin_default_ts_total", "tr_no_panic", "tr_no_panic_text", "tr_progress_whitespace", "tr_progress_strings", "tr_progress_skip_container", "tr_fuel_linear", "C17_plain_safe", "C17_plain_unmarshal_safe"]
 LEVEL = "other"
 EXPLANATION = ("hostile inputs (grammar-aware documents: typed nulls in every slot of a symbol-table struct, extreme "
                "lengths / exponents / IDs / max_id, maximal VarUInts, deep nesting; byte mutations of valid documents; all "
